@@ -54,12 +54,15 @@ CLAIMED = {
         text="Lean model of the statement-level variable scoper (stack, duplicate detection, goto/label pruning) with theorems "
              "for its decision logic (E402 iff unresolved, E482 iff resolved-to-pruned, duplicate iff visible on any layer) and "
              "block scoping for all bodies (`Vars.block_scoped`, `Vars.goStmt_stack`: a statement only appends to the innermost "
-             "layer, a block restores the stack). Partial: the equivalence of the pruning with the positional/path reading is "
-             "not yet a theorem; it is checked three-way (real compiler vs model vs an independent must-declared CFG analysis) "
+             "layer, a block restores the stack), and `Vars.skip_detected`: in ANY state with a pending `goto l`, for ANY statements "
+             "in between (not containing `l:`) and after, a variable declared at that level before `l:` and used after it is "
+             "reported (E482, or E422 if its declaration clashed) - by invariants preserved by every statement (`goStmt_pending`, "
+             "`goStmt_fresh`, `goStmt_persist`). Partial: the converse (E482 only when a path skips the declaration) is not a "
+             "theorem; both directions are checked three-way (real compiler vs model vs an independent must-declared CFG analysis) "
              "on exhaustive small scopes and random bodies.",
         note="Trusted: Lean kernel (+propext), transcription of variable_references.rs (checked by correspondence on the code multiset "
              "{402,422,424,482}), the Python CFG oracle used for the E482 verdict, harness, renderer. Only label-correct bodies are evaluated.",
-        technique="Lean 4 proof (partial: decision logic + stack invariants) + three-way model/implementation/CFG-oracle correspondence",
+        technique="Lean 4 proof (decision logic, stack invariants, skipped-declaration completeness by mutual induction) + three-way model/implementation/CFG-oracle correspondence",
         design="§4 C05"),
     "C06": dict(
         text="Lean theorems `Place.placement_iff` and `Place.lint_iff`: for every statement tree the model of "
